@@ -13,7 +13,7 @@ LEVEL_TEXT = ("Theorems over the executable model (Props/C14.lean): `decode` and
               "annotation without bytes-like members, every carrier and every string (induction over the annotation: every "
               "routine starts with decode or load); `load` returns non-text inputs untouched. The modelled strload agrees with "
               "the real one on the JSON / plain-word fragment (correspondence); outside that fragment the direct oracle still "
-              "runs: all five carriers equal-or-all-reject on the real library, JSON / literal text of a wire value equivalent "
+              "runs: all five carriers plus a read-only view of a mutable buffer (oracle-only sixth carrier) equal-or-all-reject on the real library, JSON / literal text of a wire value equivalent "
               "to the decoded value, load/strload equal to json.loads on JSON text and identity on non-JSON non-literal text.")
 LEVEL_NOTE = ("Trusted: Lean kernel, standard axioms; model tied by correspondence; orjson / ast.literal_eval are modelled on a "
               "fragment only (strings outside it are reported as unsupported by the model and judged by the oracle alone).")
